@@ -315,6 +315,26 @@ theorem ir_entry_in_place (T : Api → Opts W → Rec I → Rec I) (o : Opts W) 
   | optimize => exact ⟨rfl, by simp [irPath, showRet], fun _ => rfl⟩
   | _ => exact ⟨rfl, by simp [irPath, showRet], fun h => by rcases h with h | ⟨e, h⟩ <;> cases h⟩
 
+/-- **`replace_functions` never deletes a model-local function it was not asked to replace**: a model that
+has functions of its own is refused on both entries, and the caller's object is exactly as it was (the
+implementation inlines everything, so this guard is what protects unrelated functions). -/
+theorem replace_refuses_models_with_functions (s : Serde P I) (T : Api → Opts W → Rec I → Rec I) (o : Opts W)
+    (hasF : Rec I → Bool) (M : Rec P) (m : Rec I) :
+    (hasF (s.de M) = true → (protoReplace s T hasF o M).argAfter = M ∧
+        showRet (protoReplace s T hasF o M).ret = "raised") ∧
+    (hasF m = true → (irReplace T hasF o m).argAfter = m ∧ showRet (irReplace T hasF o m).ret = "raised") := by
+  constructor <;> intro h <;> simp [protoReplace, irReplace, h, showRet]
+
+/-- … and on a model without functions the guard is transparent: the two entries are the plain paths, so
+`proto_eq_ir` applies. -/
+theorem replace_accepts_function_free_models (s : Serde P I) (T : Api → Opts W → Rec I → Rec I) (o : Opts W)
+    (hasF : Rec I → Bool) (M : Rec P) (h : hasF (s.de M) = false) :
+    protoReplace s T hasF o M = protoPath s T .replaceFunctions o M ∧
+    irReplace T hasF o (s.de M) = irPath T .replaceFunctions o (s.de M) := by
+  simp [protoReplace, irReplace, h]
+
+example : ∃ (hasF : Rec Nat → Bool) (m : Rec Nat), hasF m = true := ⟨fun _ => true, fun _ => 0, rfl⟩
+
 /-- `optimizer.inline` (IR only): returns nothing, and without model-local functions the model is not
 handed to any pass at all. -/
 theorem inline_noop_without_functions (hasF : Rec I → Bool) (inl : Rec I → Rec I) (m : Rec I)
